@@ -15,8 +15,9 @@ def parse_recs(s):
 
 class C12(Spec):
     pid = "C12"
-    lean_module = "NunVerif.Props.C12"
-    theorems = ["Nun.C12_never_misses", "Nun.C12_bisection_total", "Nun.C12_label", "Nun.C12_last_op_time", "Nun.C12_append_keeps",
+    lean_module = "NunVerif.Props.C12Record"
+    theorems = ["Nun.C12_record_roundtrip", "Nun.C12_file_roundtrip", "Nun.C12_record_constants", "Nun.C12_record_writer_layout", "Nun.C12_record_reader_layout", "Nun.C12_record_reader_decodes",
+                "Nun.C12_record_constructor_call", "Nun.C12_operation_kinds", "Nun.C12_never_misses", "Nun.C12_bisection_total", "Nun.C12_label", "Nun.C12_last_op_time", "Nun.C12_append_keeps",
                 "Nun.C12_declutter_keeps_newest", "Nun.scanStart_ok", "Nun.bisStep_ok"]
     impl_env = {"NUN_MAX_OP_LOG_SIZE": "2500"}
     rule = ("all timestamp shapes (which neighbours are equal) of logs of 0..N records, keys/dbs/kinds cycling through 2 dbs x 3 keys x 4 kinds, "
